@@ -57,6 +57,7 @@ type sut struct {
 	ap    *model.AuthenticationPolicies // built lazily from pas
 	push  *model.PushContext
 	watch *meshwatcher.TestWatcher
+	av    *ambientView
 }
 
 func newSUT(root string) *sut {
@@ -66,6 +67,7 @@ func newSUT(root string) *sut {
 func (s *sut) add(p paIn) {
 	s.pas = append(s.pas, p)
 	s.ap = nil
+	s.av = nil
 }
 
 var modeEnum = map[string]securityapi.PeerAuthentication_MutualTLS_Mode{
